@@ -330,7 +330,10 @@ def decide(pid, tier, seed, replay=None):
     #     by the kernel against the generic model (needs the compiled models, hence after make)
     import bodies
     if (pid in bodies.ENTRIES or pid in bodies.ASSERTS) and not replay:
-        _, binfo = bodies.regenerate(pid, ROOT, BUILD)
+        try:
+            _, binfo = bodies.regenerate(pid, ROOT, BUILD)
+        except Exception as e:
+            binfo = {"obligations": 1, "discharged": 0, "failed": ["translator"], "bodies": {}, "logs": {"translator": "the method-body translator crashed: %s: %s" % (type(e).__name__, e)}}
         gen_info["obligations"] = gen_info.get("obligations", 0) + binfo["obligations"]
         gen_info["discharged"] = gen_info.get("discharged", 0) + binfo["discharged"]
         gen_info["failed"] = gen_info.get("failed", []) + binfo["failed"]
